@@ -100,6 +100,11 @@ func Run(c *hx.Ctx) error {
 			cases = planned
 			continue
 		}
+		if d := os.Getenv("C18_DUMPSETS"); d != "" {
+			for _, ps := range batch {
+				dumpSet(d, ps)
+			}
+		}
 		// ---- load it: phase A (to be flushed), flush, phase B ---------------------------------
 		tLoad := time.Now()
 		if err := loadBatch(srv, batch); err != nil {
@@ -386,4 +391,29 @@ func relevantSamples(set *sampleSet, q *query, maxSeries int) string {
 		}
 	}
 	return strings.Join(parts, " ; ")
+}
+
+// dumpSet writes a sample set as a script of the replay tool (debugging aid, C18_DUMPSETS=<dir>).
+func dumpSet(dir string, ps *plannedSet) {
+	_ = os.MkdirAll(dir, 0o755)
+	var sb strings.Builder
+	for _, sr := range ps.set.series {
+		sb.WriteString("series ")
+		for i, l := range sr.labels {
+			if i > 0 {
+				sb.WriteByte(',')
+			}
+			sb.WriteString(l.name + "=" + l.value)
+		}
+		for _, p := range sr.points {
+			if isStale(p.v) {
+				fmt.Fprintf(&sb, " %d:STALE", p.t)
+			} else {
+				fmt.Fprintf(&sb, " %d:%s", p.t, strconv.FormatFloat(p.v, 'g', -1, 64))
+			}
+		}
+		sb.WriteByte('\n')
+	}
+	fmt.Fprintf(&sb, "# layout %d\n", ps.variant)
+	_ = os.WriteFile(filepath.Join(dir, fmt.Sprintf("set%d.txt", ps.id)), []byte(sb.String()), 0o644)
 }
